@@ -42,14 +42,14 @@ def str_concat(parts):
 
 
 # ---------------------------------------------------------------- int(s, base)
-def digit_value(c, base):
+def digit_value(c, base, ascii_only=False):
     """(valid-term, value-term) of one character as a digit of `base` (c: z3 Int)."""
     _init_tables()
     cases = [(z3.And(c >= 48, c <= 48 + min(base, 10) - 1), c - 48)]
     if base > 10:
         cases.append((z3.And(c >= 65, c <= 65 + base - 11), c - 55))
         cases.append((z3.And(c >= 97, c <= 97 + base - 11), c - 87))
-    for lo, hi in DIGIT_RANGES:
+    for lo, hi in ([] if ascii_only else DIGIT_RANGES):
         if lo == 48:
             continue
         v = (c - lo) % 10
@@ -82,6 +82,14 @@ def parse_int(it, s, base=10):
         it.py_raise(ValueError, "invalid literal for int() with base %d: ''" % base)
     if base == 0 or not (2 <= base <= 36):
         raise Unsupported("int() base 0 / out of range")
+    # provenance: the string is exactly the digits produced by one formatting call
+    first = next((c for c in chars if not isinstance(c, int)), None)
+    if first is not None:
+        rec = it.ex.fmt_rec.get(first.get_id())
+        if rec is not None and rec["base"] == base and len(rec["chars"]) == len(chars) and all(
+                (a == b) if isinstance(a, int) or isinstance(b, int) else a.eq(b)
+                for a, b in zip(rec["chars"], chars)) and not rec["neg"]:
+            return mk_int(rec["mag"])
     valids, vals = [], []
     for c in chars:
         if isinstance(c, int):
@@ -89,7 +97,12 @@ def parse_int(it, s, base=10):
             valids.append(dv is not None)
             vals.append(dv if dv is not None else 0)
         else:
-            ok, v = digit_value(c, base)
+            d = it.ex.digit_of.get(c.get_id())
+            if d is not None and d[1] <= base:
+                valids.append(True)
+                vals.append(d[0])
+                continue
+            ok, v = digit_value(c, base, ascii_only=c.get_id() in it.ex.ascii_chars)
             valids.append(ok)
             vals.append(v)
     allv = And(*[z3.BoolVal(v) if isinstance(v, bool) else v for v in valids])
@@ -97,7 +110,10 @@ def parse_int(it, s, base=10):
         acc = z3.IntVal(0)
         for v in vals:
             acc = acc * base + (z3.IntVal(v) if isinstance(v, int) else v)
-        return mk_int(acc)
+        r = mk_int(acc)
+        if isinstance(r, SInt):
+            it.ex.parse_rec[r.t.get_id()] = {"t": r.t, "base": base, "digits": list(vals), "chars": list(chars)}
+        return r
     # some character is not a digit: ValueError, unless it could be a tolerated extra
     extras = set("+-_")
     if base == 16:
@@ -126,34 +142,63 @@ def parse_int(it, s, base=10):
 
 
 # ---------------------------------------------------------------- int -> text
-def int_to_str(it, v, base=10, upper=False, minwidth=0, fill="0", sign_aware=True):
-    """Digits of an int in `base`, zero-extended to minwidth (like format 0Nd/0NX)."""
-    if isinstance(v, (bool, int)) and not isinstance(v, SInt):
-        raise Unsupported("int_to_str on concrete")
+DIGITS = "0123456789abcdefghijklmnopqrstuvwxyz"
+
+
+def _digit_char(d, base, upper):
+    """char (int | term) of a digit value (int | term)"""
+    if isinstance(d, int):
+        ch = DIGITS[d]
+        return ord(ch.upper() if upper else ch)
+    if base <= 10:
+        return 48 + d
+    return z3.If(d < 10, 48 + d, (55 if upper else 87) + d)
+
+
+def int_to_str(it, v, base=10, upper=False, minwidth=0):
+    """Digits of an int in `base` (list of chars).  minwidth: zero-extend (0Nd / 0NX)."""
     t = int_term(v)
     negv = it.decide(t < 0)
-    mag = -t if negv else t
+    mag = z3.simplify(-t if negv else t)
+    # provenance: v is the value parsed from a digit string of the same base
+    rec = it.ex.parse_rec.get(t.get_id()) if not negv else None
+    if rec is not None and rec["base"] != base:
+        rec = None
     nd = None
-    for n in range(1, 40):
-        if it.decide(mag < base ** n):
-            nd = n
-            break
+    start = max(1, minwidth - (1 if negv else 0))
+    if rec is not None and start >= len(rec["digits"]):
+        nd = start
+    else:
+        for n in range(start, 40):
+            if it.decide(mag < base ** n):
+                nd = n
+                break
     if nd is None:
         raise Unsupported("integer with >= 40 digits in formatting")
     digs = []
-    for i in reversed(range(nd)):
-        d = (mag / (base ** i)) % base if i else mag % base
-        d = z3.simplify(d)
-        if z3.is_int_value(d):
-            dv = d.as_long()
-            digs.append(ord("0123456789abcdefghijklmnopqrstuvwxyz"[dv].upper() if upper else "0123456789abcdefghijklmnopqrstuvwxyz"[dv]))
-        else:
-            if base <= 10:
-                digs.append(48 + d)
+    if rec is not None:
+        # mag < base^nd: the leading parsed digits (if any) are zero, the rest are the digits
+        rd = rec["digits"]
+        src = [0] * max(0, nd - len(rd)) + list(rd[max(0, len(rd) - nd):])
+        for d in src:
+            c = _digit_char(d, base, upper)
+            if not isinstance(c, int):
+                it.ex.digit_of[c.get_id()] = (d, base, c)
+            digs.append(c)
+    else:
+        for i in reversed(range(nd)):
+            d = (mag / (base ** i)) % base if i else mag % base
+            d = z3.simplify(d)
+            if z3.is_int_value(d):
+                digs.append(_digit_char(d.as_long(), base, upper))
             else:
-                digs.append(z3.If(d < 10, 48 + d, (55 if upper else 87) + d))
-    out = ([ord("-")] if negv else []) + digs
-    return out
+                c = _digit_char(d, base, upper)
+                it.ex.digit_of[c.get_id()] = (d, base, c)
+                digs.append(c)
+    first = next((c for c in digs if not isinstance(c, int)), None)
+    if first is not None:
+        it.ex.fmt_rec[first.get_id()] = {"chars": list(digs), "mag": mag, "base": base, "neg": negv}
+    return ([ord("-")] if negv else []) + digs
 
 
 _SPEC = re.compile(r"^(?:(?P<fill>.)?(?P<align>[<>=^]))?(?P<sign>[-+ ])?(?P<alt>#)?(?P<zero>0)?"
@@ -193,9 +238,10 @@ def format_value(it, val, spec, conv=None):
         base = {None: 10, "d": 10, "X": 16, "x": 16, "b": 2, "o": 8, "n": 10}.get(typ)
         if base is None:
             raise Unsupported(f"format type {typ} for int")
-        digs = int_to_str(it, val, base, upper=(typ == "X"))
         if g["zero"] and not align:
             fill, align = "0", "="
+        zero_ext = width if (fill == "0" and align == "=") else 0
+        digs = int_to_str(it, val, base, upper=(typ == "X"), minwidth=zero_ext)
         return _pad(digs, width, fill or " ", align or ">")
     if isinstance(val, SStr):
         if typ not in (None, "s"):
